@@ -90,6 +90,16 @@ PUSH_ARMS = {
         % dict(S0=S0, B=B, O=O, F=F))),
 }
 
+# ArrayPop once more, on the R9 stand-in, for the ACCOUNTING half of C07: heap_size counts capacity * 16 per array, so an arm
+# may change an array's capacity only together with heap_size (ArrayPop: neither changes)
+PUSH_ARMS['ArrayPop'] = dict(props=["C07", "C26"], clause='accounting', extra_params="arr: &mut ArrayObject", store='val', rewrites=[R8_MUT], contract=(
+    "        requires reg_ok(%(S0)s, %(B)s, reg), reg_store_ok(reg_after_load(%(S0)s, reg), %(B)s, dest),\n"
+    "        ensures final(arr).data.cap() == old(arr).data.cap(),\n"
+    "            final(self).heap_size == old(self).heap_size, final(self).gc_debt == old(self).gc_debt,\n"
+    "            old(arr).data@.len() > 0 ==> cont && final(arr).data@ == old(arr).data@.drop_last(),\n"
+    "            old(arr).data@.len() == 0 ==> !cont && final(arr).data@ == old(arr).data@,\n"
+    % dict(S0=S0, B=B)))
+
 ASSUMED_PUSH = [
     "U5v/R9 (push arms only): the field type `data: Vec<Value>` of ArrayObject is replaced by a contract-only stand-in with the ASSUMED "
     "contract of std Vec: push appends one element and never lowers capacity; capacity() >= len(); capacity * 16 <= isize::MAX",
